@@ -27,7 +27,10 @@ echo "$suite" | grep -q "^ok" && SUITE_OK=1 || SUITE_OK=0
 echo "demo on unchanged tree passes: $BASE_OK; demo with change fails: $WITH_FAILS; existing tests pass with change: $SUITE_OK"
 # run the check against /repo with the change applied
 git -C /repo apply "$PATCH" || { echo "PATCH DOES NOT APPLY TO /repo"; exit 2; }
-chk=$(cd /verif && ./check.sh "$PROP" quick 2>&1); rc=$?
+# evidence and replays of this run go to scratch files: /verif/evidence describes the unchanged tree only
+ET=$(mktemp -d /var/tmp/sonicvc-seedev-XXXX)
+chk=$(cd /verif && ./build.sh >/dev/null 2>&1; bin/sonicvc check --property "$PROP" --tier quick --evidence "$ET/ev.json" 2>&1); rc=$?
+rm -rf "$ET"
 git -C /repo checkout -- .
 echo "check exit=$rc"; echo "$chk" | grep -E "VIOLATION|obligation" | head -6 | cut -c1-260
 mkdir -p "/verif/seeded/$ID"
